@@ -312,9 +312,6 @@ class Sdf(Adapter):
             bad.append(("title", f"{x.title!r} -> {y.title!r}"))
         return bad
 
-    def known_cause(self, x):
-        return "whitespace-split" if self.free_touching(x) else None
-
     # ---- C03 -------------------------------------------------------------------------------
     def spec_gen(self, rng, natom, i):
         q, opts, cls = self.gen(rng, natom, i)
@@ -340,9 +337,6 @@ class Sdf(Adapter):
             L.append(str(a + 1).rjust(3) + str(b + 1).rjust(3) + str(t).rjust(3) + "  0" * 4)
         L += ["M  END", "$$$$"]
         return ("\n".join(L) + "\n").encode("latin-1")
-
-    def spec_deviation(self, m):
-        return "whitespace-split" if self.touching(m) else None
 
     def spec_diff(self, m, line):
         return "mismatch" if line.startswith("ok") else line.replace(" ", "-")
